@@ -79,12 +79,25 @@ def literalBody (q : String) : List Char :=
 def unsafeLiteral (q : String) : Bool :=
   (q.toList.filter (· == '"')).length > 2 || q.toList.contains '\\' || q.toList.any (fun c => c.toNat < 32)
 
-/-- a backslash that is not the start of one of the lexer's character escapes -/
+def isOct (c : Char) : Bool := '0' ≤ c && c ≤ '7'
+def isHex (c : Char) : Bool := c.isDigit || ('a' ≤ c && c ≤ 'f') || ('A' ≤ c && c ≤ 'F')
+
+/-- a backslash that is not the start of one of the lexer's escapes inside a double-quoted string
+    (text/scanner's scanEscape: a b f n r t v \\ ", three octal digits, x + 2, u + 4, U + 8 hex
+    digits; `\'` is NOT one) -/
 def escBreaks : List Char → Bool
-  | '\\' :: c :: rest => if "abfnrtv'\\".toList.contains c then escBreaks rest else true
+  | '\\' :: c :: rest =>
+    if "abfnrtv\\\"".toList.contains c then escBreaks rest
+    else if isOct c then !((rest.take 2).length == 2 && (rest.take 2).all isOct) || escBreaks (rest.drop 2)
+    else
+      let need := if c == 'x' then 2 else if c == 'u' then 4 else if c == 'U' then 8 else 0
+      if need == 0 then true
+      else !((rest.take need).length == need && (rest.take need).all isHex) || escBreaks (rest.drop need)
   | ['\\'] => true
   | _ :: rest => escBreaks rest
   | [] => false
+termination_by l => l.length
+decreasing_by all_goals (simp_wf; try omega)
 
 /-- the recorded finding `query-literal-unescaped`: a value that cannot stand between plain double
     quotes - it holds a quote, a line feed, a NUL, or a backslash that does not start one of the
